@@ -5,7 +5,6 @@ package c11
 import (
 	"bytes"
 	"crypto/tls"
-	"encoding/json"
 	"fmt"
 	"sync"
 	"time"
@@ -106,7 +105,7 @@ func norm(tr []script.Event) []string {
 			x.Remote = ""
 			ev.Ctx = &x
 		}
-		b, _ := json.Marshal(ev)
+		b, _ := core.MarshalCase(ev)
 		out = append(out, string(b))
 	}
 	return out
